@@ -1,12 +1,24 @@
-"""Per-property check configuration for ./check. Each part is one `go test`
-invocation of an overlay-injected harness inside the rqlite module."""
+"""Per-property check configuration for ./check and gen_manifest.py. Each part
+is one `go test` invocation of an overlay-injected harness inside the rqlite module."""
 
 def part(name, pkg, run, **kw):
     d = {"name": name, "pkg": pkg, "run": run}
     d.update(kw)
     return d
 
+ENGINES = [
+    {"name": "E-ENUM", "path": "/verif/harness", "kind_free_text": "bounded-exhaustive enumeration of inputs/programs/configurations, executed on the real code against a reference model or a differential SQLite oracle", "serves_properties": []},
+]
+
+NOT_APPLICABLE = {}
+
 CHECKS = {
-    "C19": {"level": "model_checking",
+    "C19": {"level": "model_checking", "engine": "E-ENUM",
+            "technique": "exhaustive small-scope enumeration of credential files x queries on the real CredentialsStore vs reference rule",
+            "text": "Every credentials file of up to 3 entries over a 5x4x5 field alphabet (including omitted fields and duplicate users) is loaded by the real store and asked all 60 (user,password,perm) queries; each decision is compared with the rule in the statement. Exhaustive within that scope (1,010,101 files, 60.6M decisions at thorough).",
+            "note": "Scope bound: <=3 entries, 3 user names, 2 passwords, perms {x,y,all}. JSON decoding by encoding/json is trusted.",
             "parts": [part("enum", "auth", "^TestVerif_C19$", timeout_quick=300, timeout_thorough=1800)]},
 }
+
+for _e in ENGINES:
+    _e["serves_properties"] = sorted(p for p, c in CHECKS.items() if c.get("engine") == _e["name"])
